@@ -16,23 +16,24 @@
    offset[num_rows] == length, and the error code of get_row).  Definitions only: the
    proofs are in RefineProofs.v etc.; this file keeps running if a proof breaks. *)
 From Coq Require Import List ZArith Bool Lia.
-From TskVerif Require Import Base.Common.
+From TskVerif Require Import Base.Common Gen.Generated.
 Import ListNotations.
 Open Scope Z_scope.
 
 (* ---------------------------------------------------------------------------------- *)
-(* constants (c/tskit/core.h)                                                          *)
-Definition TSK_MAX_ID : Z := 2147483646.                   (* INT32_MAX - 1 *)
+(* constants (c/tskit/core.h): re-read from the source on every run by
+   translator/facts_c13.py -> Gen/Generated.v (names c13_*)                             *)
+Definition TSK_MAX_ID : Z := c13_tsk_max_id.               (* INT32_MAX - 1 *)
 Definition TSK_MAX_SIZE : Z := 18446744073709551615.       (* UINT64_MAX *)
 Definition SIZE_MOD : Z := 18446744073709551616.
 Definition U32_MOD : Z := 4294967296.
 Definition TSK_NULL : Z := -1.
-Definition TSK_ERR_BAD_PARAM_VALUE : Z := -4.
-Definition TSK_ERR_BAD_OFFSET : Z := -200.
-Definition TSK_ERR_KEEP_ROWS_MAP_TO_DELETED : Z := -212.
-Definition TSK_ERR_BAD_TABLE_POSITION : Z := -700.
-Definition TSK_ERR_TABLE_OVERFLOW : Z := -703.
-Definition TSK_ERR_COLUMN_OVERFLOW : Z := -704.
+Definition TSK_ERR_BAD_PARAM_VALUE : Z := c13_tsk_err_bad_param_value.
+Definition TSK_ERR_BAD_OFFSET : Z := c13_tsk_err_bad_offset.
+Definition TSK_ERR_KEEP_ROWS_MAP_TO_DELETED : Z := c13_tsk_err_keep_rows_map_to_deleted.
+Definition TSK_ERR_BAD_TABLE_POSITION : Z := c13_tsk_err_bad_table_position.
+Definition TSK_ERR_TABLE_OVERFLOW : Z := c13_tsk_err_table_overflow.
+Definition TSK_ERR_COLUMN_OVERFLOW : Z := c13_tsk_err_column_overflow.
 (* not library codes: outcomes of the Python layer / of tsk_bug_assert *)
 Definition PY_INDEX_ERROR : Z := 1.
 Definition PY_VALUE_ERROR : Z := 2.
@@ -118,15 +119,26 @@ Record tdesc := mkDesc {
                                           check_num_rows = false (sites, mutations) *)
 }.
 
-(* column order = harness/props/c13.py SCHEMAS *)
-Definition d_individuals := mkDesc [KU32] 3 [0; 1; 2]%nat (Some (false, 1%nat)) (Some 2%nat) false (-207) false.
-Definition d_nodes := mkDesc [KF64; KU32; KId; KId] 1 [0%nat] None (Some 0%nat) false (-202) false.
-Definition d_edges := mkDesc [KF64; KF64; KId; KId] 1 [0%nat] None (Some 0%nat) false (-203) false.
-Definition d_migrations := mkDesc [KF64; KF64; KId; KId; KId; KF64] 1 [0%nat] None (Some 0%nat) false (-208) false.
-Definition d_sites := mkDesc [KF64] 2 [1; 0]%nat None (Some 1%nat) true (-205) true.
-Definition d_mutations := mkDesc [KId; KId; KF64; KId] 2 [1; 0]%nat (Some (true, 3%nat)) (Some 1%nat) true (-206) true.
-Definition d_populations := mkDesc [] 1 [0%nat] None (Some 0%nat) false (-204) false.
-Definition d_provenances := mkDesc [] 2 [1; 0]%nat None None false (-209) false.
+(* column order = harness/props/c13.py SCHEMAS.  The order in which append_columns treats
+   the ragged columns, the add_row assertion, the error code and the flag of the binding's
+   metadata_offset read are regenerated from tables.c / tskit_lwt_interface.h / core.h on
+   every run (translator/facts_c13.py), so a change there changes the model. *)
+Definition d_individuals := mkDesc [KU32] 3 c13_order_individual (Some (false, 1%nat)) (Some 2%nat)
+  c13_addrow_assert_individual c13_tsk_err_individual_out_of_bounds (negb c13_md_offset_length_checked_individual).
+Definition d_nodes := mkDesc [KF64; KU32; KId; KId] 1 c13_order_node None (Some 0%nat)
+  c13_addrow_assert_node c13_tsk_err_node_out_of_bounds (negb c13_md_offset_length_checked_node).
+Definition d_edges := mkDesc [KF64; KF64; KId; KId] 1 c13_order_edge None (Some 0%nat)
+  c13_addrow_assert_edge c13_tsk_err_edge_out_of_bounds (negb c13_md_offset_length_checked_edge).
+Definition d_migrations := mkDesc [KF64; KF64; KId; KId; KId; KF64] 1 c13_order_migration None (Some 0%nat)
+  c13_addrow_assert_migration c13_tsk_err_migration_out_of_bounds (negb c13_md_offset_length_checked_migration).
+Definition d_sites := mkDesc [KF64] 2 c13_order_site None (Some 1%nat)
+  c13_addrow_assert_site c13_tsk_err_site_out_of_bounds (negb c13_md_offset_length_checked_site).
+Definition d_mutations := mkDesc [KId; KId; KF64; KId] 2 c13_order_mutation (Some (true, 3%nat)) (Some 1%nat)
+  c13_addrow_assert_mutation c13_tsk_err_mutation_out_of_bounds (negb c13_md_offset_length_checked_mutation).
+Definition d_populations := mkDesc [] 1 c13_order_population None (Some 0%nat)
+  c13_addrow_assert_population c13_tsk_err_population_out_of_bounds (negb c13_md_offset_length_checked_population).
+Definition d_provenances := mkDesc [] 2 c13_order_provenance None None
+  c13_addrow_assert_provenance c13_tsk_err_provenance_out_of_bounds false.
 
 (* tsk_*_table_init: one row / one cell allocated with increment 1, then the increments
    are reset to 0; the Python constructor then sets max_rows_increment *)
